@@ -16,7 +16,8 @@ External kernels are **parameters with contracts** (never re-implemented as trut
 Same order of operations as the code:
 
 `svdtf`  : centroids → centred clouds → `M = Σ targetᵢ sourceᵢᵀ` → `U,S,Vh = svd M` →
-           `mask = det(U Vh) < 0` → last **column** of `U` negated where masked → `R = U Vh` →
+           `d = (1, 1, -1 if det(U Vh) < 0 else 1)` → `R = (U * d) @ Vh`, i.e. the last **column** of `U` negated for a
+           reflection (since fix D42 out of place, so that backward works; same values) →
            `t = c_target − R c_source` → `mat2SE3([R|t], check=False)` (quaternion by `mat2SO3Raw`).
 `svdstf` : `H = M / N`, `Mm = diag(1,1,sign det(U V))`, `scale = (diag(Mm)·D) / var_source` (or 1),
            `R = U Mm V`, `t = c_target − scale·R c_source`, `mat2Sim3([scale·R | t], check=True)`.
@@ -233,6 +234,30 @@ def IcpMod.run (align : Pairs α → SE3 α) (nn : Cloud α → Vec3 α → Nat)
   | m, c :: cs =>
     let r := m.forward align nn c
     let rest := IcpMod.run align nn r.1 cs
+    (rest.1, r.2 :: rest.2)
+
+/-- a history in which some calls raise before producing a result (`none`: an argument check of `forward` fires, or
+the user's stepper raises): a raising call returns nothing and — `forward` assigns no attribute — leaves the module as it was -/
+def IcpMod.runE (align : Pairs α → SE3 α) (nn : Cloud α → Vec3 α → Nat) : IcpMod α → List (Option (IcpCall α)) → IcpMod α × List (SE3 α)
+  | m, [] => (m, [])
+  | m, none :: cs => IcpMod.runE align nn m cs
+  | m, some c :: cs =>
+    let r := m.forward align nn c
+    let rest := IcpMod.runE align nn r.1 cs
+    (rest.1, r.2 :: rest.2)
+
+/-- two module objects (an original and a copy, or two unrelated modules) used interleaved: each call names the object
+it is made on (`false`: the first, `true`: the second); the state of both objects and the results in call order -/
+def IcpMod.run2 (align : Pairs α → SE3 α) (nn : Cloud α → Vec3 α → Nat) :
+    IcpMod α → IcpMod α → List (Bool × IcpCall α) → (IcpMod α × IcpMod α) × List (SE3 α)
+  | a, b, [] => ((a, b), [])
+  | a, b, (false, c) :: cs =>
+    let r := a.forward align nn c
+    let rest := IcpMod.run2 align nn r.1 b cs
+    (rest.1, r.2 :: rest.2)
+  | a, b, (true, c) :: cs =>
+    let r := b.forward align nn c
+    let rest := IcpMod.run2 align nn a r.1 cs
     (rest.1, r.2 :: rest.2)
 
 end PP.Align
